@@ -229,6 +229,10 @@ class StandardRequestHandler(ControlRequestHandler):
                         m.d.comb += get_descriptor_handler.start.eq(1)
                         m.d.usb += expecting_ack.eq(1)
 
+                    # ... whose ACK directly follows it; after any other token, an ACK belongs to someone else's packet.
+                    with m.Elif(interface.tokenizer.new_token):
+                        m.d.usb += expecting_ack.eq(0)
+
                     # Each time we receive an ACK, advance in our descriptor.
                     # This allows us to send descriptors with >64B of content.
                     with m.If(interface.handshakes_in.ack & expecting_ack):
